@@ -112,6 +112,15 @@ Theorem C13_inversion_D_and_F_are_gram_products :
     = @F_spec ROps (@inv_P ROps objs) (inv_matrix_spec pi_ G uv objs) noise (@inv_noreg ROps objs) value.
 Proof. exact T_inversion. Qed.
 
+(* 7. histories: any number of TransformerDFT objects alive in one process (constructed in any order, with or without
+   preloaded tables, over masks / baselines that differ in as little as one pixel), their three methods called in any order
+   any number of times: what every step returns is the pure function of (the geometry and baselines the addressed object
+   was constructed from, the contents of the argument of this call) -- nothing is carried over from another object or an
+   earlier call *)
+Theorem C13_history_is_pure : forall (pi_ : R) (steps : list (@hstep ROps)), @hist_geoms_ok ROps steps = true ->
+  @run_hist ROps pi_ [] steps = @pure_hist ROps pi_ [] steps.
+Proof. exact T_history. Qed.
+
 (* ---------------------------------------------------------------- non-vacuity of the hypothesis sets *)
 (* a 2 x 3 mask with a masked corner and an outer-ring pixel, unequal pixel scales, shifted origin *)
 Definition exG : @geom ROps :=
@@ -136,6 +145,29 @@ Example ex_signed_matrix :
   = [[((-1)%Q, 0%Q); (3%Q, 0%Q)]; [(1%Q, 0%Q); ((-1)%Q, (-2)%Q)]].
 Proof. vm_compute. reflexivity. Qed.
 
+(* two transformers over masks with the same pixel count (the second is the first shifted by one pixel), preload on / off,
+   calls interleaved, the same image given to both *)
+Definition exG' : @geom ROps :=
+  @Build_geom ROps [[false; false; true]; [true; false; false]] 2 (1 / 2) (1 / 4) (-1).
+Example ex_history :
+  @hist_geoms_ok ROps [@HNew ROps exG [(1, 2); (0, 0)] true; @HNew ROps exG' [(1, 2); (0, 0)] false;
+                       @HVis ROps 0%nat [1; -2; 0; 3]; @HVis ROps 1%nat [1; -2; 0; 3];
+                       @HTmm ROps 0%nat 1%nat [[1]; [0]; [-1]; [2]]; @HImage ROps 1%nat [(1, -1); (2, 0)];
+                       @HVis ROps 0%nat [3; 1; -2; 0]] = true.
+Proof.
+  unfold hist_geoms_ok. cbn [forallb]. rewrite !andb_true_r. unfold geom_ok, scales_ok. cbn.
+  repeat (apply andb_true_intro; split); try reflexivity; apply negb_true_iff, Reqb_false; lra.
+Qed.
+(* on the executable model two siblings (one pixel, shifted by one) DO give different visibilities for the same image
+   (pi_ := 648000 makes radians = arc-seconds; quarter-turn phases: exact) *)
+Example ex_siblings_differ :
+  let G1 := @Build_geom QOpsT [[false; true]] 1%Q 1%Q 0%Q 0%Q in let G2 := @Build_geom QOpsT [[true; false]] 1%Q 1%Q 0%Q 0%Q in
+  map (fun o : @hout QOpsT => match o with ONew g => g | OVis v => v | _ => [] end)
+    (@run_hist QOpsT (648000 # 1)%Q [] [@HNew QOpsT G1 [(1 # 2, 0)%Q] true; @HNew QOpsT G2 [(1 # 2, 0)%Q] true;
+                                        @HVis QOpsT 0%nat [1%Q]; @HVis QOpsT 1%nat [1%Q]])
+  = [[(0, -1 # 2)%Q]; [(0, 1 # 2)%Q]; [(0, 1)%Q]; [(0, -1)%Q]].
+Proof. vm_compute. reflexivity. Qed.
+
 Print Assumptions C13_visibilities_formula.
 Print Assumptions C13_dft_spec_is_the_formula.
 Print Assumptions C13_dft_is_operator.
@@ -156,3 +188,4 @@ Print Assumptions C13_transformer_visibilities.
 Print Assumptions C13_transformer_image.
 Print Assumptions C13_transformer_mapping_matrix.
 Print Assumptions C13_inversion_D_and_F_are_gram_products.
+Print Assumptions C13_history_is_pure.
